@@ -120,7 +120,7 @@ def traced(ctx, cwd, args):
 
 
 def run(ctx):
-    n = 40 if ctx.tier == "quick" else 400
+    n = ctx.n(40, 400)
     rng = core.Rng(ctx.seed)
     combos = []
     for a in ATTACKS:
